@@ -306,8 +306,15 @@ func (b *cliBins) exec(c *cliCfg, dir string) cliObs {
 	cmd := exec.CommandContext(ctx, bin, c.argv(dir)...)
 	cmd.Dir = dir
 	cmd.Env = []string{"HOME=" + dir, "PATH=/usr/bin:/bin"}
-	if c.Stdin != nil {
+	if c.Stdin != nil && *c.Stdin != "" {
 		cmd.Stdin = strings.NewReader(*c.Stdin)
+	} else if atomic.LoadInt64(&b.runs)%3 == 0 {
+		cmd.Stdin = strings.NewReader("") // an empty pipe
+	} else if dn, err := os.Open(os.DevNull); err == nil {
+		// empty input from the null device (a character device, as in `jd a.json </dev/null`, cron, docker run
+		// without -i): equivalent to naming an empty file
+		defer dn.Close()
+		cmd.Stdin = dn
 	} else {
 		cmd.Stdin = strings.NewReader("")
 	}
